@@ -130,9 +130,14 @@ def warnings_case(ctx):
     """gen_params emits one warning per record, naming both residues"""
     import polyply.src.gen_itp as gi
     rng = ctx.rng
-    for _ in range(ctx.n(12, 100)):
-        ff = ffgen.gen_ff(rng, uniform_nrexcl=1)
-        g = ffgen.gen_resgraph(rng, ff, nres=rng.randint(2, 5), shape='path')
+    for k in range(ctx.n(12, 100)):
+        if k < 2:
+            # a long chain without any applicable link: many records in one run, each needs its own warning
+            ff = ffgen.gen_ff(rng, nlinks=0, uniform_nrexcl=1)
+            g = ffgen.gen_resgraph(rng, ff, nres=rng.randint(55, 130), shape='path')
+        else:
+            ff = ffgen.gen_ff(rng, uniform_nrexcl=1)
+            g = ffgen.gen_resgraph(rng, ff, nres=rng.randint(2, 5), shape='path')
         g['r0'] = 1
         text = ffgen.render_ff(ff)
         plain = ffgen.run_pipeline(text, g)
